@@ -329,6 +329,19 @@ def write_records(path: Path, job: Dict[str, Any]) -> Dict[str, Any]:
                 w(route_record(None, rn, "haversine", f"{job['id']}#{k}", o, d, "same_position" if a == b else "random", False))
                 w(snap_record(rn, "haversine", f"{job['id']}#s{k}", a))
                 n_routes += 1
+                if a != b and k % 3 == 0:
+                    # the vehicle is under way on that straight link (its position names the link and a cell part-way down it)
+                    # and is routed again: to where it was going, and to somewhere else
+                    from nrel.hive.model.entity_position import EntityPosition
+
+                    first = rn.route(o, d)
+                    line = list(h3.h3_line(a, b))
+                    if first and len(line) > 2:
+                        mid = EntityPosition(first[0].link_id, line[rng.randrange(1, len(line) - 1)])
+                        w(route_record(None, rn, "haversine", f"{job['id']}#{k}u", mid, d, "vehicle_under_way", False))
+                        c = h3.geo_to_h3(*world.at(rng.uniform(-3000, 3000), rng.uniform(-3000, 3000)), 15)
+                        w(route_record(None, rn, "haversine", f"{job['id']}#{k}v", mid, rn.position_from_geoid(c), "vehicle_under_way", False))
+                        n_routes += 2
             return {"routes": n_routes, "net": kind}
         if kind == "file":
             rn, ref = load_osm(Path(job["path"]))
